@@ -12,15 +12,47 @@ static PEAK: AtomicUsize = AtomicUsize::new(0);
 /// a single request above this is refused by ending the process with a diagnostic (an abort would carry no message)
 pub static ALLOC_CAP: AtomicUsize = AtomicUsize::new(6 << 30);
 pub static REPLAY_MODE: AtomicUsize = AtomicUsize::new(0);
+/// the property this run was started for (number; 0 = all): a case the run has to give up on is reported under it
+pub static PROP_NO: AtomicUsize = AtomicUsize::new(0);
 pub static HEARTBEAT: AtomicUsize = AtomicUsize::new(0);
 static CURRENT: std::sync::Mutex<String> = std::sync::Mutex::new(String::new());
 
 /// what is running now: `check\x1fdescription\x1freplay args joined by \x1e`; used when the process has to give up on a case
 pub fn set_current(what: &str) {
+    CASE_IS_BYTES.store(0, Ordering::Relaxed);
     if let Ok(mut g) = CURRENT.lock() {
         g.clear();
         g.push_str(what);
     }
+}
+pub struct CaseBytes {
+    pub check: &'static str,
+    pub name: &'static str,
+    pub input: Vec<u8>,
+    pub sched: Option<Sched>,
+}
+static CASE_BYTES: std::sync::Mutex<CaseBytes> = std::sync::Mutex::new(CaseBytes { check: "", name: "", input: Vec::new(), sched: None });
+static CASE_IS_BYTES: AtomicUsize = AtomicUsize::new(0);
+/// cheapest form: the raw input is copied; the text is only built if the run has to give up on this case
+pub fn set_case_bytes(check: &'static str, name: &'static str, input: &[u8], sched: Sched) {
+    if let Ok(mut g) = CASE_BYTES.lock() {
+        g.check = check;
+        g.name = name;
+        g.input.clear();
+        g.input.extend_from_slice(input);
+        g.sched = Some(sched);
+    }
+    CASE_IS_BYTES.store(1, Ordering::Relaxed);
+    HEARTBEAT.fetch_add(1, Ordering::Relaxed);
+}
+/// like set_case, but the text is written into the existing buffer by `f` (no allocation; for suites with millions of cases)
+pub fn set_case_with(f: impl FnOnce(&mut String)) {
+    CASE_IS_BYTES.store(0, Ordering::Relaxed);
+    if let Ok(mut g) = CURRENT.lock() {
+        g.clear();
+        f(&mut g);
+    }
+    HEARTBEAT.fetch_add(1, Ordering::Relaxed);
 }
 pub fn set_case(check: &str, desc: &str, replay: &[String]) {
     set_current(&format!("{}\x1f{}\x1f{}", check, desc, replay.join("\x1e")));
@@ -30,13 +62,27 @@ pub fn set_case(check: &str, desc: &str, replay: &[String]) {
 pub fn give_up(reason: &str) -> ! {
     // raise the cap so that printing cannot recurse into this path
     ALLOC_CAP.store(usize::MAX / 2, Ordering::Relaxed);
+    let mut from_bytes = String::new();
+    if CASE_IS_BYTES.load(Ordering::Relaxed) == 1 {
+        if let Ok(c) = CASE_BYTES.try_lock() {
+            let mut args = vec![hex(&c.input)];
+            if let Some(s) = c.sched {
+                args.extend(s.args());
+            }
+            from_bytes = format!("{}\x1f{} input {:?} under {:?}\x1f{}", c.check, c.name, show(&c.input), c.sched, args.join("\x1e"));
+        }
+    }
     let g = CURRENT.try_lock();
-    let cur: &str = g.as_ref().map(|g| g.as_str()).unwrap_or("");
+    let cur: &str = if !from_bytes.is_empty() { from_bytes.as_str() } else { g.as_ref().map(|g| g.as_str()).unwrap_or("") };
     let mut it = cur.split('\x1f');
     let check = it.next().unwrap_or("");
     let desc = it.next().unwrap_or("");
     let replay: Vec<&str> = it.next().unwrap_or("").split('\x1e').filter(|s| !s.is_empty()).collect();
     let check = if check.is_empty() || !check.starts_with('C') { "C05 terminates with bounded resources" } else { check };
+    // not terminating (or exhausting memory) breaks whatever property the run was checking: the call never delivers its result
+    let pn = PROP_NO.load(Ordering::Relaxed);
+    let renamed = if pn > 0 { format!("C{:02}{}", pn, &check[3..]) } else { check.to_string() };
+    let check = renamed.as_str();
     if REPLAY_MODE.load(Ordering::Relaxed) != 0 {
         println!("FAILS {}: {}: {}", check, desc, reason);
         std::process::exit(1);
